@@ -143,6 +143,23 @@ fn c05_strings(ctx: &Ctx, rep: &mut Report, home: &str, sroot: &str) {
             }
         }
     });
+    // every path of up to 6 (quick) / 7 (thorough) components from {.., ., a, e-acute, empty}, relative and rooted:
+    // the shapes clean() has to get right ("../a/../..", "a/./../../b", "/../a/..") are all in here
+    let comps = ["..", ".", "a", "é", ""];
+    let cmax = if ctx.thorough { 7 } else { 6 };
+    let mut cidx = 0u64;
+    for_all_strings(&["0", "1", "2", "3", "4"], cmax, |_, code| {
+        cidx += 1;
+        if !ctx.mine(cidx) || code.is_empty() {
+            return;
+        }
+        let parts: Vec<&str> = code.bytes().map(|b| comps[(b - b'0') as usize]).collect();
+        let rel = parts.join("/");
+        if !rel.is_empty() {
+            check(&rel, rep);
+        }
+        check(&format!("/{}", rel), rep);
+    });
     let toks = ["/", ".", "..", "~", "~/", "$HOME", "${HOME}", "$", "a", "é", "b c", "//", "file://", "€😀"];
     let mut rng = ctx.rng("c05-random");
     for _ in 0..(if ctx.thorough { 200_000 } else { 20_000 } / ctx.shards) {
